@@ -547,9 +547,20 @@ int cif_loop_get_packets(
         } else {
             UChar **name;
 
-/* All uthash fatal errors arise from memory allocation failure */
+/*
+ * All uthash fatal errors arise from memory allocation failure.  When the table itself cannot be created, uthash
+ * leaves the element being added as the head of a table that does not exist; that must be undone before the iterator
+ * is cleaned up.  (In all other cases the element has already been added to a consistent table.)
+ */
 #undef uthash_fatal
-#define uthash_fatal(msg) FAIL(soft, CIF_MEMORY_ERROR)
+#define uthash_fatal(msg) do { \
+    if (temp_it->name_set == element) { \
+        free(element->hh.tbl); \
+        temp_it->name_set = NULL; \
+        free(element); \
+    } \
+    FAIL(soft, CIF_MEMORY_ERROR); \
+} while (0)
             for (name = temp_it->item_names; *name; name += 1) {
                 struct set_element_s *element = (struct set_element_s *) malloc(sizeof(struct set_element_s));
 
